@@ -125,6 +125,11 @@ def run_rules(ctx: Ctx, prop: str) -> list[RuleResult]:
     rules = list(REGISTRY.get(prop, []))
     if ctx.tier == "thorough":
         rules += THOROUGH.get(prop, [])
+    # functions the property's rules anchor on are analysis units of their own: they are never
+    # replaced by their value when terms are built
+    opaque = META.get(prop, {}).get("opaque")
+    if opaque is not None:
+        ctx.X.opaque |= set(opaque(ctx))
     for fn in rules:
         res = fn(ctx)
         uniq: dict = {}
